@@ -322,9 +322,10 @@ class Cpt(ImmittanceMixin):
                 # FIXME: zeroing all args doesn't make much sense.
                 # Perhaps only zero first arg?
                 arg = 0
+            elif arg is None:
+                # An unspecified initial condition stays unspecified.
+                continue
             elif subs_dict is not None:
-                if arg is None:
-                    continue
                 # Perform substitutions
                 arg = str(expr(arg).subs(subs_dict))
 
